@@ -111,6 +111,36 @@ func (fx *FnCtx) applyKnownRegions(d *Driver) {
 	}
 }
 
+// activeDriver lets the VC generator ask, while it executes a body, whether an assertion it is about to ASSUME
+// (after having emitted it as an obligation) is excused by a known finding: an excused assertion is only known to
+// hold outside the finding's region, so only that may be assumed -- assuming it in full would make everything
+// after it vacuously true inside the region.
+var activeDriver *Driver
+
+// assumeAfterAssert returns what may be assumed after the assertion `name` (obligation name without the
+// "<target>:<func>:" prefix) with goal `goal` has been emitted.
+func (fx *FnCtx) assumeAfterAssert(name, goal string) string {
+	d := activeDriver
+	if d == nil {
+		return goal
+	}
+	full := fx.oblPrefix() + ":" + name
+	for _, k := range d.known {
+		if k.Status != "known" || !matchObligation(full, k) || !d.witnessStillFails(k) {
+			continue
+		}
+		if k.Region == "" || k.Region == "true" {
+			return "true"
+		}
+		e, err := parseSpecExpr(k.Region)
+		if err != nil {
+			fx.fail("known finding %s: bad region: %v", k.ID, err)
+		}
+		return "(=> (not " + fx.specBool(fx.entry, e) + ") " + goal + ")"
+	}
+	return goal
+}
+
 func matchObligation(name string, k KnownFinding) bool {
 	// name = "<target>:<func>:<rest>"; k.Obligation = "<func>:<rest>" (any target) or full name
 	if name == k.Obligation {
